@@ -3519,7 +3519,7 @@ static Token *global_variable(Token *tok, Type *basety, VarAttr *attr) {
 
     if (equal(tok, "="))
       gvar_initializer(&tok, tok->next, var);
-    else if (!attr->is_extern && !attr->is_tls)
+    else if (!attr->is_extern)
       var->is_tentative = true;
   }
   return tok;
@@ -3558,9 +3558,12 @@ static void scan_globals(void) {
         break;
 
     // If there's another definition, the tentative definition
-    // is redundant
+    // is redundant. It no longer counts as a definition itself, so
+    // that the last of several tentative definitions is kept.
     if (!var2)
       cur = cur->next = var;
+    else
+      var->is_definition = false;
   }
 
   cur->next = NULL;
